@@ -14,7 +14,14 @@ Oracles
     extended only by the element's documented keys;
   * reset-equals-fresh (twin): after each reset a newly constructed element receives the same suffix
     and must give the same outcome (values by ==, exception type) for every later event;
-  * fill and reset themselves must not raise inside the alphabet.
+  * the number types of what is yielded after a reset (int / float / Decimal) are those a fresh
+    element yields for the same suffix (observational equality; only ever compared between the two
+    real executions, never with the model);
+  * fill and reset themselves must not raise inside the alphabet;
+  * three families of histories per configuration: from a newly constructed element; after a sibling
+    instance of the class has been active (prelude); with the element under test being a deep copy
+    of a newly constructed element whose original stays alive, is filled once after the copy was
+    taken, and must compute the same before and after every event on the copy (copy-independent).
 """
 import copy
 import decimal
@@ -33,15 +40,19 @@ ID = "C09"
 LEVEL = "model_checking"
 DESIGN_REF = "DESIGN.md section 5, C09"
 RULE = ("breadth-first search over histories (fill(v) | compute | reset)* of every element "
-        "configuration, one shard per (configuration, first event); a history is extended only if its "
+        "configuration, one shard per (configuration, first event) for the plain and the sibling-prelude "
+        "family and one shard per configuration for the deep-copy family (prelude and deep-copy: one "
+        "level less); a history is extended only if its "
         "canonical state (frozen vars of element and twin + abstract model state) was not seen before in "
         "its shard; every executed transition is one evaluation; it is non-trivial when it is a compute "
         "(or a FillRequest block) judged on at least two values filled since the last reset, or any "
         "observation made after a reset that followed at least one fill; states = distinct canonical "
         "states summed over shards; traces = histories ending in an observation compared with the model")
 ASSUMPTIONS = [
-    "value pools per element: ints, floats of mixed magnitude (0.1, +-1e16, 2**-1074) and (data, context) "
-    "pairs with nested JSON-like contexts; VarianceMeanCount only on small ints / dyadic rationals "
+    "value pools per element: ints of mixed magnitude (0, 1, -2, 2**53+1 which no float holds), floats of "
+    "mixed magnitude (0.1, +-1e16, 2**-1074) and (data, context) "
+    "pairs with nested JSON-like contexts; VarianceMeanCount (also inside Vectorize) only on small ints / "
+    "dyadic rationals "
     "(naive formula is not judged on catastrophic cancellation), variance within 1e-9 of the sum-of-squares scale",
     "reset() is compared with a fresh element constructed with DEFAULT start values for Sum/DSum/Count "
     "(their reset documents zeroing, not restoring the constructor argument) and with the same "
@@ -50,29 +61,47 @@ ASSUMPTIONS = [
     "or anything within rel 1e-9 of the exact mean; DSum must equal the exact rational sum (a float "
     "result must be its correct rounding)",
     "GroupBy: only the partition of the filled objects is judged against the model (order of groups is "
-    "left to the twin comparison); GroupBy('k') is fed only values whose context has key k",
+    "left to the twin comparison); GroupBy('k') / GroupBy('a') are fed only values whose context has that "
+    "key; the pools of GroupBy('', merge=()) and GroupBy('a') hold equal (sub)contexts written in "
+    "different orders of their items at both levels - equal dictionaries are equal keys; no empty "
+    "sub-dictionaries (DESIGN.md section 3, R2)",
+    "Zip enters as Zip([FillRequest(Sum()), FillRequest(Mean() | DSum())]) (bufsize 1 / 2, reset False / "
+    "True, with and without fields), the only kind of Zip that has a reset method, driven block-aligned "
+    "like FillRequest; its branches add no context key of their own, so the zipped value must carry exactly "
+    "the context of the last filled value",
+    "deep-copy family: copy.deepcopy of a newly constructed element is an accumulator of its own (Split and "
+    "Vectorize make their branches and components this way); the original is observed only through "
+    "compute(), and only for fill/compute elements",
+    "types of yielded numbers are compared only between the element after reset and its fresh twin",
     "Graph: the context may be extended by the keys scale and dim only",
     "FillRequest / FillRequestSeq are driven block-aligned only (bufsize fills, then request()), and "
     "reset() is called only between blocks: their reset documents resetting the wrapped element, not "
     "the adapter's own counters (mid-block behaviour belongs to C16)",
     "outcomes are compared by == on values and by type name on exceptions; aliasing of yielded "
     "contexts is C04's subject, not judged here",
-    "elements needing numpy (NumpyHistogram) and Zip of FillRequest sequences (construction fails on "
-    "the unfixed tree, F20/C03) are outside the alphabet",
+    "elements needing numpy (NumpyHistogram) are outside the alphabet; the deprecated private _GroupBy "
+    "(kept for GroupPlots) is not a framework element",
 ]
-NONTRIVIAL_FLOOR = {"quick": 10000, "thorough": 100000}
-BUDGET_S = {"quick": 120, "thorough": 1500}
+NONTRIVIAL_FLOOR = {"quick": 12000, "thorough": 100000}
+BUDGET_S = {"quick": 240, "thorough": 1500}
 
 DEPTH = {"quick": 4, "thorough": 6}
 
 CTX1 = {"a": {"b": 1}, "k": 1}
 CTX2 = {"k": 2, "c": [1, 2]}
 TINY = 2.0 ** -1074
-NUM = [1, -2, 0.5, 0.1, 1e16, -1e16, TINY, (3, CTX1), (0, CTX2)]    # zero is a value like any other
+BIG = 2 ** 53 + 1      # an int that no float holds: integer sums stay exact only in integer arithmetic
+NUM = [1, -2, 0.5, 0.1, 1e16, -1e16, TINY, (BIG, CTX1), (0, CTX2)]    # zero is a value like any other
 BENIGN = [1, -2, 0.5, 2.25, (3, CTX1), (4, CTX2)]
 VEC = [(1, 2), (-2, 0.5), (0.1, 1e16), ((3, -1e16), CTX1), ((4, TINY), CTX2)]
+VECB = [(1, 2), (-2, 0.5), (0.5, 2.25), ((3, -1), CTX1), ((4, 0.25), CTX2)]     # benign vectors
 STORE = [1, 0.5, (3, CTX1), (4, CTX2), (5, {"k": 1, "o": 2})]
 GROUPK = [(1, {"k": 1}), (3, CTX1), (4, CTX2), (5, {"k": 1, "o": 2}), (6, {"k": 3})]
+# equal contexts (equal group keys) written in different orders of their items, at both levels
+GROUPO = [(1, {"k": 1, "o": 2}), (2, {"o": 2, "k": 1}), (3, {"a": {"b": 1, "c": 2}, "k": 1}),
+          (4, {"k": 1, "a": {"c": 2, "b": 1}}), (5, {"k": 1, "o": 3})]
+GROUPA = [(1, {"a": {"b": 1, "c": 2}}), (2, {"k": 1, "a": {"c": 2, "b": 1}}), (3, {"a": {"b": 1, "c": 3}}),
+          (4, {"k": 2, "a": {"b": 1}}), (5, {"a": {"c": 3, "b": 1}, "k": 1})]
 EDGES = [0, 1, 2, 4]
 HIST = [-1, 0, 0.5, 1, 3.5, 4, (1.5, CTX1), (5, CTX2)]
 EDGES2 = [[0, 1, 2], [0, 1, 2]]
@@ -81,13 +110,17 @@ GRAPH = [(1, 10), (0, 5), (1, 3), ((2, 7), CTX1), ((0.5, 1), CTX2)]
 GRAPH_SCALE = GRAPH[:3] + [((3, 1), {"scale": 2}), ((0.5, 1), CTX2)]
 BLOCKS1 = [[1], [0.5], [(3, CTX1)]]
 BLOCKS2 = [[1, -2], [0.5, (3, CTX1)], [(4, CTX2), 1]]
+ZBLOCKS1 = [[1], [0.5], [(BIG, CTX1)]]
+ZBLOCKS2 = [[1, -2], [0.5, (BIG, CTX1)], [(4, CTX2), 1]]
 
 
 def describe(tier):
     return ("all histories of length <= %d over fill(v) | compute | reset for %d element configurations "
             "(value pools of 5..9 values per element), de-duplicated on canonical state; FillRequest "
-            "adapters: block | reset histories of the same length"
-            % (DEPTH[tier], len(CONFIGS)))
+            "adapters and Zip of FillRequest branches: block | reset histories of the same length; the same "
+            "with length <= %d after a sibling instance was active, and for a deep copy of a new element "
+            "whose original stays alive"
+            % (DEPTH[tier], len(CONFIGS), DEPTH[tier] - 1))
 
 
 # ---------------------------------------------------------------------------------------------------
@@ -155,6 +188,11 @@ def _configs():
         lambda: M.VectorModel([M.SumModel(), M.SumModel()]), VEC)
     add("Vectorize(Mean(), dim=2)", "Vectorize", lambda: Vectorize(Mean(), dim=2),
         lambda: M.VectorModel([M.MeanModel(), M.MeanModel()]), VEC)
+    add("Vectorize(VarianceMeanCount(corrected=False), dim=2)", "Vectorize",
+        lambda: Vectorize(VMC(corrected=False), dim=2),
+        lambda: M.VectorModel([M.VarianceModel(corrected=False), M.VarianceModel(corrected=False)]), VECB)
+    add("Vectorize(VarianceMeanCount(), dim=2)", "Vectorize", lambda: Vectorize(VMC(), dim=2),
+        lambda: M.VectorModel([M.VarianceModel(), M.VarianceModel()]), VECB)
     add("StoreFilled()", "StoreFilled", lambda: StoreFilled(), lambda: M.StoreModel(True), STORE,
         peek=lambda el: el.group)
     add("StoreFilled(yield_as_a_group=False)", "StoreFilled",
@@ -164,6 +202,10 @@ def _configs():
         peek=lambda el: list(el.groups.values()))
     add("GroupBy('k')", "GroupBy", lambda: GroupBy("k"), lambda: M.GroupModel(lambda c: c["k"]),
         GROUPK, peek=lambda el: list(el.groups.values()))
+    add("GroupBy('', merge=())", "GroupBy", lambda: GroupBy("", merge=()),
+        lambda: M.GroupModel(lambda c: M._fz(c)), GROUPO, peek=lambda el: list(el.groups.values()))
+    add("GroupBy('a')", "GroupBy", lambda: GroupBy("a"), lambda: M.GroupModel(lambda c: M._fz(c["a"])),
+        GROUPA, peek=lambda el: list(el.groups.values()))
     zeros = lambda: [0, 0, 0]
     add("Histogram(edges)", "Histogram", lambda: Histogram(list(EDGES)),
         lambda: M.HistogramModel(EDGES, zeros()), HIST, refused=[("s", CTX2)])
@@ -197,6 +239,19 @@ def _configs():
             (lambda kw=kw: FillRequestSeq(FillRequest(Sum(), **kw), bufsize=2, reset=kw["reset"],
                                           buffer_input=True)),
             (lambda r=r: M.BlockModel(M.SumModel, r)), BLOCKS2, kind="fr", watch=True)
+    # Zip of fill-request branches (the only Zip that has a reset method): both branches get every value
+    for b, blocks, second, cls, smodel, fields in ((1, ZBLOCKS1, "Mean", Mean, M.MeanModel, ()),
+                                                   (2, ZBLOCKS2, "DSum", DSum, M.DSumModel, ("s", "d"))):
+        for r in (False, True):
+            kw = {"bufsize": b, "reset": r, "buffer_input": True}
+            zkw = {"fields": fields} if fields else {}
+            name = "Zip([FillRequest(Sum(), bufsize=%d, reset=%s, buffer_input=True), FillRequest(%s(), ...)]%s)" \
+                % (b, r, second, ", fields=('s', 'd')" if fields else "")
+            add(name, "Zip",
+                (lambda kw=kw, cls=cls, zkw=zkw:
+                 lena.flow.Zip([FillRequest(Sum(), **kw), FillRequest(cls(), **kw)], **zkw)),
+                (lambda r=r, smodel=smodel: M.BlockModel(lambda: M.ZipModel([M.SumModel(), smodel()]), r)),
+                blocks, kind="fr", watch=True)
     return out
 
 
@@ -212,7 +267,17 @@ def shards(tier):
     for c in CONFIGS:
         for k in range(len(c.events)):
             out.append({"config": c.name, "first": k, "prelude": True})
+    for c in CONFIGS:
+        # one level less, like the prelude family: one shard holds all first events of a configuration
+        out.append({"config": c.name, "first": None, "copy": True})
     return out
+
+
+def _mode(p):
+    """"" | "prelude" | "copy" of a shard descriptor or of a recorded case."""
+    if p.get("copy"):
+        return "copy"
+    return "prelude" if p.get("prelude") else ""
 
 
 # ---------------------------------------------------------------------------------------------------
@@ -252,6 +317,30 @@ def canon_outcome(out):
     if out[0] == "ok":
         return ("ok", canon(out[1]))
     return out
+
+
+def number_types(x, depth=0):
+    """The types of the numbers in a yielded value (int, float, Decimal ...), in place.  Only used to
+    compare an element after reset with a fresh one: whatever can be observed counts there, and the
+    type of a result is observable (repr, division, exactness of later sums)."""
+    if isinstance(x, (int, float, decimal.Decimal, fractions.Fraction)):
+        return type(x).__name__
+    if depth > 30 or x is None or isinstance(x, (str, bytes)):
+        return None
+    if isinstance(x, dict):
+        return tuple(sorted((repr(k), number_types(v, depth + 1)) for k, v in x.items()))
+    if isinstance(x, (list, tuple)):
+        return tuple(number_types(v, depth + 1) for v in x)
+    tname = type(x).__name__
+    if tname == "histogram":
+        return number_types(x.bins, depth + 1)
+    if tname == "Graph":
+        return number_types(list(x.points), depth + 1)
+    return None
+
+
+def types_outcome(out):
+    return number_types(out[1]) if out[0] == "ok" else None
 
 
 def skey(x, seen=None, depth=0):
@@ -294,10 +383,12 @@ def skey(x, seen=None, depth=0):
 # ---------------------------------------------------------------------------------------------------
 
 class State(object):
-    __slots__ = ("el", "twin", "model", "objs", "resets", "filled_before_reset", "alive", "sibling")
+    __slots__ = ("el", "twin", "model", "objs", "resets", "filled_before_reset", "alive", "sibling",
+                 "origin", "origin_before")
 
-    def __init__(self, cfg, prelude=False):
-        if prelude:
+    def __init__(self, cfg, mode=""):
+        self.origin = None
+        if mode == "prelude":
             # start from a non-initial state of the process: another instance of the same class has been
             # computed before it was ever filled, then filled, computed and reset, and stays alive.
             # Instances are independent: nothing of this may show in what *this* element yields.
@@ -314,12 +405,28 @@ class State(object):
             except Exception:  # noqa: what the sibling itself does is judged in its own histories
                 pass
         self.el = cfg.make()
+        if mode == "copy":
+            # the element under test is a deep copy of a newly constructed element (what Split, Vectorize
+            # and users do to get independent elements).  The original stays alive and is filled with one
+            # value after the copy was taken: a deep copy is an accumulator of its own, and nothing that is
+            # done to it may show in what the original yields.
+            self.origin = self.el
+            self.el = copy.deepcopy(self.origin)
+            if cfg.kind == "fc":
+                try:
+                    self.origin.fill(copy.deepcopy(cfg.pool[-1]))
+                except Exception:  # noqa: judged in the ordinary histories
+                    pass
+                self.origin_before = self.observe_origin(cfg)
         self.twin = None
         self.model = cfg.model()
         self.objs = []
         self.resets = 0
         self.filled_before_reset = False
         self.alive = True
+
+    def observe_origin(self, cfg):
+        return canon_outcome(_call(cfg, lambda: list(self.origin.compute())))
 
     def key(self):
         return (skey(vars(self.el)), None if self.twin is None else skey(vars(self.twin)),
@@ -354,6 +461,21 @@ def step(cfg, S, e):
     """Apply event e to state S (the real element, its twin, the model).
     Returns (violations, outcome, nontrivial, observed) with violations a list of
     (cause, observed, expected, note)."""
+    ret = _step(cfg, S, e)
+    if S.origin is not None and cfg.kind == "fc":
+        now = S.observe_origin(cfg)
+        if now != S.origin_before:
+            S.alive = False
+            ret[0].append(({"law": "copy-independent", "element": cfg.element, "config": cfg.name,
+                            "feature": "original changed by " + ("fill" if isinstance(e, int) else
+                                                                   {"c": "compute", "r": "reset"}.get(e, "refused fill"))},
+                           _short(now), _short(S.origin_before),
+                           "the element is a deep copy; what the original (filled once, never touched "
+                           "again) computes changed through an event on the copy"))
+    return ret
+
+
+def _step(cfg, S, e):
     viols = []
     after = S.resets > 0
     sfx = "-after-reset" if after else ""
@@ -378,10 +500,16 @@ def step(cfg, S, e):
                 "fills since last reset: %s" % _short(S.model.values, 300))
         c = canon_outcome(out)
         if S.twin is not None:
-            ct = canon_outcome(_call(cfg, lambda: list(S.twin.compute())))
+            tout = _call(cfg, lambda: list(S.twin.compute()))
+            ct = canon_outcome(tout)
             if c != ct:
                 bad("reset-equals-fresh", "compute", c, ct,
                     "compute() after reset differs from a fresh element given the same suffix")
+            elif types_outcome(out) != types_outcome(tout):
+                bad("reset-equals-fresh", "compute (types of the numbers)",
+                    (out[1], types_outcome(out)), (tout[1], types_outcome(tout)),
+                    "compute() after reset yields numbers of another type than a fresh element given "
+                    "the same suffix")
         nontrivial = S.model.n >= 2 or (after and S.filled_before_reset)
         return viols, ("c", c), nontrivial, True
 
@@ -425,10 +553,15 @@ def step(cfg, S, e):
             bad(kind + sfx, feature, got, want, "block-aligned fill/request")
         c = canon_outcome(out)
         if S.twin is not None:
-            ct = canon_outcome(_call(cfg, lambda: _block(S.twin, tmpl)))
+            tout = _call(cfg, lambda: _block(S.twin, tmpl))
+            ct = canon_outcome(tout)
             if c != ct:
                 bad("reset-equals-fresh", "request", c, ct,
                     "request() after reset differs from a fresh adapter given the same blocks")
+            elif types_outcome(out) != types_outcome(tout):
+                bad("reset-equals-fresh", "request (types of the numbers)",
+                    (out[1], types_outcome(out)), (tout[1], types_outcome(tout)),
+                    "request() after reset yields numbers of another type than a fresh adapter")
         if out[0] == "exc":
             S.alive = False
         nontrivial = n_judged > len(tmpl) or (after and S.filled_before_reset)
@@ -451,10 +584,10 @@ def step(cfg, S, e):
     return viols, ("f", r[0]), False, False
 
 
-def run_history(cfg, hist, prelude=False):
+def run_history(cfg, hist, mode=""):
     """Rebuild a fresh element and apply the whole history, judging every step.
     Returns (state, list of violations)."""
-    S = State(cfg, prelude)
+    S = State(cfg, mode)
     allv = []
     for e in hist:
         if not S.alive:
@@ -467,7 +600,7 @@ def _ckey(cause):
     return tuple(sorted(cause.items()))
 
 
-def shrink(cfg, hist, cause, prelude=False):
+def shrink(cfg, hist, cause, mode=""):
     """Greedy: drop single events while a violation with the same cause remains."""
     want = _ckey(cause)
     hist = list(hist)
@@ -476,12 +609,12 @@ def shrink(cfg, hist, cause, prelude=False):
         changed = False
         for i in range(len(hist)):
             cand = hist[:i] + hist[i + 1:]
-            _, vs = run_history(cfg, cand, prelude)
+            _, vs = run_history(cfg, cand, mode)
             if any(_ckey(v[0]) == want for v in vs):
                 hist = cand
                 changed = True
                 break
-    _, vs = run_history(cfg, hist, prelude)
+    _, vs = run_history(cfg, hist, mode)
     v = [v for v in vs if _ckey(v[0]) == want][0]
     return hist, v
 
@@ -502,9 +635,9 @@ def _readable(cfg, hist):
 
 def run_shard(p, tier):
     cfg = BY_NAME[p["config"]]
-    first = cfg.events[p["first"]]
-    prelude = bool(p.get("prelude"))
-    depth = DEPTH[tier] - (1 if prelude else 0)
+    first = None if p["first"] is None else cfg.events[p["first"]]
+    mode = _mode(p)
+    depth = DEPTH[tier] - (1 if mode else 0)
     res = Result()
     seen = set()
     shrunk = set()
@@ -512,9 +645,9 @@ def run_shard(p, tier):
     for level in range(1, depth + 1):
         nxt = []
         for h in frontier:
-            events = [first] if level == 1 else cfg.events
+            events = [first] if level == 1 and first is not None else cfg.events
             for e in events:
-                S = State(cfg, prelude)
+                S = State(cfg, mode)
                 for pe in h:
                     step(cfg, S, pe)
                 viols, outcome, nontrivial, observed = step(cfg, S, e)
@@ -534,10 +667,13 @@ def run_shard(p, tier):
                         res.violation({}, None, None, cause)    # counted; the first one is kept
                         continue
                     shrunk.add(ck)
-                    small, v = shrink(cfg, hist, cause, prelude)
-                    if prelude:
+                    small, v = shrink(cfg, hist, cause, mode)
+                    if mode == "prelude":
                         cause = dict(cause, after_sibling_activity=True)
-                    res.violation({"config": cfg.name, "history": small, "prelude": prelude,
+                    elif mode == "copy":
+                        cause = dict(cause, element_is_a_deep_copy=True)
+                    res.violation({"config": cfg.name, "history": small, "prelude": mode == "prelude",
+                                   "copy": mode == "copy",
                                    "readable": _readable(cfg, small)}, v[1], v[2], cause, v[3])
                 if S.alive:
                     k = S.key()
@@ -549,7 +685,7 @@ def run_shard(p, tier):
         res.maximum("depth_completed", level)
         res.maximum("frontier_width", len(nxt))
         frontier = nxt
-    if p["first"] == 0:
+    if not p["first"]:
         # the initial state itself (empty history) belongs to the first shard of the configuration
         res.states += 1
     res.states += len(seen)
@@ -561,7 +697,7 @@ def replay(case):
     if cfg is None:
         raise ValueError("unknown configuration %r" % (case.get("config"),))
     res = Result()
-    _, vs = run_history(cfg, case["history"], bool(case.get("prelude")))
+    _, vs = run_history(cfg, case["history"], _mode(case))
     for cause, got, want, note in vs:
         res.violation(case, got, want, cause, note)
     return result_violations(res)
@@ -570,9 +706,13 @@ def replay(case):
 LEVEL_TEXT = ("explicit-state model checking of the real accumulator objects: breadth-first search over all "
               "histories (fill(v) | compute | reset)* up to depth 4 (quick) / 6 (thorough) for %d element "
               "configurations, de-duplicated on the frozen vars of the element and of its fresh twin; every "
-              "compute is compared with an independent reference aggregate and with the twin" % len(CONFIGS))
+              "compute is compared with an independent reference aggregate and with the twin (values and "
+              "number types); repeated one level shallower after sibling activity and for deep copies of "
+              "the elements (original must stay undisturbed)" % len(CONFIGS))
 LEVEL_NOTE = ("bounded: histories up to the stated depth over per-element value pools of 5..9 values; "
-              "FillRequest adapters only block-aligned; NumpyHistogram and Zip outside the alphabet; "
+              "FillRequest adapters and Zip of FillRequest branches only block-aligned; NumpyHistogram "
+              "outside the alphabet; "
               "aliasing of yielded contexts is judged by C04, not here")
 TECHNIQUE = ("explicit-state BFS over the real transition function with state de-duplication; reference "
-             "models (len, fold, Fraction sums, cell dictionary) and a reset-vs-fresh twin as oracles")
+             "models (len, fold, Fraction sums, cell dictionary, partition by canonical key), a "
+             "reset-vs-fresh twin and an original-vs-deep-copy pair as oracles")
